@@ -1,14 +1,18 @@
 #!/usr/bin/env python3
 """run_check.py <PROPERTY> --tier quick|thorough
 
-Decides one property of /verif/properties.jsonl by bounded model checking (Kani -> CBMC -> SAT) of the real
-functions compiled from /repo's current working tree.  See DESIGN.md.
+Decides one property of /verif/properties.jsonl by solver-based checking of the real code of /repo's current working tree:
+  E1  Kani -> CBMC -> SAT on the compiled crate (in-crate proof harnesses through guarded hooks)
+  E2  symbolic execution of rustc's MIR of the crate (mirsym/, z3): all feasible paths of the real functions' MIR
+See DESIGN.md.
 
-exit 0  every harness was decided by the solver and held (recorded known findings print KNOWN-FINDING lines)
+exit 0  every harness was decided by a solver and held (recorded known findings print KNOWN-FINDING lines)
 exit 1  a solver counterexample reproduced natively against the real code: VIOLATION property=<id> replay=<path>
-exit 2  inconclusive (timeout / out of memory / tool error / vacuous harness / counterexample that does not reproduce)
+exit 2  inconclusive (timeout / out of memory / tool error / vacuous harness / unsupported construct /
+        counterexample that does not reproduce)
 """
 import argparse
+import concurrent.futures
 import importlib
 import json
 import os
@@ -18,24 +22,22 @@ import time
 
 sys.path.insert(0, os.path.dirname(os.path.abspath(__file__)))
 from vlib import core  # noqa: E402
+from vlib.core import Harness, E2Spec  # noqa: E402
 
 
 def replay_only(path):
     """re-run a stored counterexample natively: python3 run_check.py --replay <file>"""
     meta = {}
     for ln in open(path):
-        if ln.startswith('# crate='):
-            meta['crate'] = ln.split('=', 1)[1].strip()
-        if ln.startswith('# property='):
-            meta['property'] = ln.split('=', 1)[1].strip()
-        if ln.startswith('# tier='):
-            meta['tier'] = ln.split('=', 1)[1].strip()
+        for k in ('crate', 'property', 'tier'):
+            if ln.startswith(f'# {k}='):
+                meta[k] = ln.split('=', 1)[1].strip()
     pid = meta.get('property')
     tier = meta.get('tier', 'quick')
     mod = importlib.import_module('checks.' + pid.lower())
     known = {f['key'] for f in core.load_known_findings() if f.get('status', 'open') == 'open'}
     harnesses, gen_code, info = mod.build(tier, known)
-    work = core.prepare_workdir(f'{pid}-replay', gen_code, harnesses)
+    work = core.prepare_workdir(f'{pid}-replay', gen_code, [h for h in harnesses if isinstance(h, Harness)])
     ok, detail = core.native_replay(work, meta.get('crate', 'data'), os.path.abspath(path))
     print(('REPRODUCED: ' if ok else 'NOT REPRODUCED: ') + detail)
     core.cleanup_workdir(work)
@@ -61,26 +63,28 @@ def main():
     mod = importlib.import_module('checks.' + pid.lower())
     findings = core.load_known_findings()
     known = {f['key'] for f in findings if f.get('status', 'open') == 'open' and f['property'] == pid}
-    harnesses, gen_code, info = mod.build(tier, known)
+    all_h, gen_code, info = mod.build(tier, known)
     if args.only:
-        harnesses = [h for h in harnesses if args.only in h.name]
+        all_h = [h for h in all_h if args.only in h.name or getattr(h, 'role', '') == 'native']
+    rust_h = [h for h in all_h if isinstance(h, Harness)]
+    harnesses = [h for h in rust_h if h.role != 'native']       # decided by Kani/CBMC
+    e2specs = [h for h in all_h if isinstance(h, E2Spec)]        # decided by the MIR symbolic executor
     tag = args.tag or f'{pid}-{tier}'
-    work = core.prepare_workdir(tag, gen_code, harnesses)
-    core.log(f'[{pid}] tier={tier} harnesses={len(harnesses)} work={work}')
+    work = core.prepare_workdir(tag, gen_code, rust_h)
+    core.log(f'[{pid}] tier={tier} kani harnesses={len(harnesses)} mir harnesses={len(e2specs)} work={work}')
 
     by_crate = {}
     for h in harnesses:
         by_crate.setdefault(h.crate, []).append(h)
     results = {}
-    raw = {}
     compile_errors = {}
-
     cbmc_args_of = {}
+    e2results = {}
+    mem_kb = info.get('mem_kb', 40 * 1024 * 1024)
 
     def run_group(crate, g, jobs, to, tsuffix, label):
         res, text, wall, cerr = core.run_kani(work, crate, [h.name for h in g], jobs, to, log_name=f'kani-{crate}-{label}',
-                                              mem_kb=info.get('mem_kb', 40 * 1024 * 1024),
-                                              overall_timeout=info.get('overall_timeout'), tsuffix=tsuffix)
+                                              mem_kb=mem_kb, overall_timeout=info.get('overall_timeout'), tsuffix=tsuffix)
         core.log(f'[{pid}] cargo kani -p {core.CRATES[crate]} ({label}): {len(g)} harnesses, wall {wall:.0f}s')
         if cerr:
             compile_errors[crate] = text[-3000:]
@@ -103,34 +107,62 @@ def main():
             by_args.setdefault(cbmc_args, []).append(h)
         for i, (cbmc_args, hh) in enumerate(by_args.items()):
             to = max(h.timeout for h in hh)
-            res, text, wall, cerr = core.run_kani(work, crate, [h.name for h in hh], min(jobs, len(hh)), to, log_name=f'kani-{crate}-special{i}',
-                                                  mem_kb=info.get('mem_kb', 40 * 1024 * 1024), tsuffix=tsuffix, cbmc_args=cbmc_args)
+            res, text, wall, cerr = core.run_kani(work, crate, [h.name for h in hh], min(jobs, len(hh)), to,
+                                                  log_name=f'kani-{crate}-special{i}', mem_kb=mem_kb, tsuffix=tsuffix, cbmc_args=cbmc_args)
             core.log(f'[{pid}] cargo kani -p {core.CRATES[crate]} ({len(hh)} harnesses, {" ".join(cbmc_args)}): wall {wall:.0f}s')
             if cerr:
                 compile_errors[crate] = text[-3000:]
             for h in hh:
                 results[h.name] = res.get(h.name)
 
+    def run_e2_all(jobs):
+        crates = sorted({c for s in e2specs for c in s.params.get('_crates', ['data'])})
+        md, errs = core.dump_mir(work, crates)
+        if errs:
+            for s in e2specs:
+                e2results[s.name] = dict(harness=s.name, status='inconclusive', violations=[], known_hits={}, covers={}, stats={},
+                                         inconclusive=['MIR dump failed: ' + json.dumps(errs)[-1500:]], functions_executed=[], models_used=[])
+            return
+        tasks = []
+        with concurrent.futures.ThreadPoolExecutor(max_workers=max(1, jobs)) as pool:
+            for s in e2specs:
+                if s.parts > 1:
+                    futs = [pool.submit(core.run_e2, work, s, known, (i, s.parts)) for i in range(s.parts)]
+                else:
+                    futs = [pool.submit(core.run_e2, work, s, known, None)]
+                tasks.append((s, futs))
+            for s, futs in tasks:
+                rs = [f.result() for f in futs]
+                e2results[s.name] = core.merge_e2(rs)
+                st = e2results[s.name]
+                core.log(f"[{pid}] mirsym {s.name}: {st['status']} paths={st['stats'].get('paths')} solver_checks={st['stats'].get('solver_checks')} wall={st['stats'].get('wall_s')}s")
+
     threads = []
+    n_kani_jobs = args.jobs if not e2specs else max(2, args.jobs // 2)
+    if not harnesses:
+        n_kani_jobs = 0
     for crate, hs in by_crate.items():
         plain = [h for h in hs if not h.unwindset]
         special = [h for h in hs if h.unwindset]
-        # explicit groups get their own invocation (and target dir) and run concurrently with the rest
         groups = {}
         for h in plain:
             groups.setdefault(h.group, []).append(h)
         ngroups = len(groups) + (1 if special else 0)
-        share = max(1, args.jobs // max(1, ngroups * len(by_crate)))
+        share = max(1, n_kani_jobs // max(1, ngroups * len(by_crate)))
         for grp, g in groups.items():
             to = max(h.timeout for h in g)
             tsuffix = '' if grp is None else f'-{grp}'
-            th = threading.Thread(target=run_group, args=(crate, g, min(share, len(g)) if grp is not None else max(share, args.jobs - share * (ngroups - 1) * len(by_crate)), to, tsuffix, grp or 'main'))
+            th = threading.Thread(target=run_group, args=(crate, g, max(1, min(share, len(g))), to, tsuffix, grp or 'main'))
             th.start()
             threads.append(th)
         if special:
-            th = threading.Thread(target=run_special, args=(crate, special, '-special', max(1, args.jobs // 2)))
+            th = threading.Thread(target=run_special, args=(crate, special, '-special', share))
             th.start()
             threads.append(th)
+    if e2specs:
+        th = threading.Thread(target=run_e2_all, args=(max(1, args.jobs - n_kani_jobs),))
+        th.start()
+        threads.append(th)
     for th in threads:
         th.join()
 
@@ -140,11 +172,38 @@ def main():
     passed = []
     hrep = []
     replay_dir = os.path.join(core.VERIF, 'replays', pid)
+
+    def replay_and_classify(entry, name, crate, vals, descs, buf_repr, others, role_key, native_name=None):
+        """native replay of a solver counterexample; returns after filing the entry under violations/known/inconclusive"""
+        rp = os.path.join(replay_dir, f'{name}.replay')
+        comment = (f'property={pid}\ncrate={crate}\ntier={tier}\nharness={name}\nfailed: ' + '; '.join(descs[:4]) +
+                   f'\ninput={buf_repr}\nother values={others}')
+        core.write_replay_file(rp, native_name or name, vals, comment)
+        ok, detail = core.native_replay(work, crate, rp, release=False)
+        prof = 'dev'
+        if not ok:
+            ok2, detail2 = core.native_replay(work, crate, rp, release=True)
+            if ok2:
+                ok, detail, prof = True, detail2, 'release'
+        entry['counterexample'] = dict(input=buf_repr, others=others, replay=rp, native=detail, profile=prof)
+        if ok:
+            if role_key and role_key in known:
+                what = next(f['what'] for f in findings if f['key'] == role_key)
+                entry['verdict'] = 'known finding reproduced'
+                known_hits.append((role_key, what, entry))
+            else:
+                entry['verdict'] = 'VIOLATION (reproduced natively)'
+                violations.append(entry)
+        else:
+            entry['verdict'] = 'inconclusive: counterexample does not reproduce natively (' + detail + ')'
+            inconclusive.append(entry)
+
+    # ---- Kani / CBMC results -------------------------------------------------------------------------
     for h in harnesses:
         r = results.get(h.name) or dict(status='missing', failed_checks=[], raw='')
-        entry = dict(harness=h.name, crate=core.CRATES[h.crate], role=h.role, functions=h.functions, bound=h.bound,
-                     claim=h.claim, status=r['status'], checks=r.get('checks'), failed=r.get('failed'),
-                     cover_sat=r.get('cover_sat'), cover_total=r.get('cover_total'), solver_s=r.get('time'))
+        entry = dict(harness=h.name, engine='E1 Kani 0.68 / CBMC 6.11 / cadical', crate=core.CRATES[h.crate], role=h.role,
+                     functions=h.functions, bound=h.bound, claim=h.claim, status=r['status'], checks=r.get('checks'),
+                     failed=r.get('failed'), cover_sat=r.get('cover_sat'), cover_total=r.get('cover_total'), solver_s=r.get('time'))
         st = r['status']
         if st == 'pass':
             if h.expect_cover and r.get('cover_total') and r.get('cover_sat') != r.get('cover_total'):
@@ -168,41 +227,60 @@ def main():
                     inconclusive.append(entry)
                 else:
                     buf, others = core.decode_vals(vals)
-                    rp = os.path.join(replay_dir, f'{h.name}.replay')
-                    comment = (f'property={pid}\ncrate={h.crate}\ntier={tier}\nharness={h.name}\nfailed: ' + '; '.join(descs[:4]) +
-                               f'\ninput bytes (1-byte values in order)={buf!r}\nother values={others}')
-                    core.write_replay_file(rp, h.name, vals, comment)
-                    ok, detail = core.native_replay(work, h.crate, rp, release=False)
-                    prof = 'dev'
-                    if not ok:
-                        ok2, detail2 = core.native_replay(work, h.crate, rp, release=True)
-                        if ok2:
-                            ok, detail, prof = True, detail2, 'release'
-                    entry['counterexample'] = dict(bytes=repr(buf), others=others, replay=rp, native=detail, profile=prof)
-                    if ok:
-                        key = h.role[6:] if h.role.startswith('known:') else None
-                        if key and key in known:
-                            what = next(f['what'] for f in findings if f['key'] == key)
-                            entry['verdict'] = 'known finding reproduced'
-                            known_hits.append((key, what, entry))
-                        else:
-                            entry['verdict'] = 'VIOLATION (reproduced natively)'
-                            violations.append(entry)
-                    else:
-                        entry['verdict'] = 'inconclusive: counterexample does not reproduce natively (' + detail + ')'
-                        inconclusive.append(entry)
+                    key = h.role[6:] if h.role.startswith('known:') else None
+                    replay_and_classify(entry, h.name, h.crate, vals, descs, repr(buf), others, key)
         else:
             entry['verdict'] = f'inconclusive: {st}'
             entry['raw_tail'] = (r.get('raw') or '')[-600:]
             inconclusive.append(entry)
         hrep.append(entry)
 
+    # ---- MIR symbolic executor results ------------------------------------------------------------------
+    for s in e2specs:
+        r = e2results.get(s.name) or dict(status='inconclusive', violations=[], known_hits={}, inconclusive=['not run'], stats={}, covers={})
+        stt = r.get('stats', {})
+        entry = dict(harness=s.name, engine='E2 MIR symbolic executor (mirsym) / z3', role=s.role,
+                     functions=r.get('functions_executed') or s.functions, library_models=r.get('models_used', []),
+                     bound=s.bound, claim=s.claim, status=r['status'], paths=stt.get('paths'), branch_decisions=stt.get('decisions'),
+                     solver_queries=stt.get('solver_checks'), solver_s=round(stt.get('solver_s', 0), 2), wall_s=stt.get('wall_s'),
+                     covers=r.get('covers', {}), cover_sat=len(r.get('covers', {})), cover_total=len(r.get('covers', {})))
+        crate = s.native[0] if s.native else 'data'
+        nname = s.native[1] if s.native else None
+        for key, rec in r.get('known_hits', {}).items():
+            e2 = dict(entry)
+            e2['harness'] = f'{s.name}#{key}'
+            if nname:
+                replay_and_classify(e2, f'{s.name}.{key}', crate, rec['vals'], [rec['msg']], rec.get('input', ''), [], key, native_name=nname)
+                hrep.append(e2)
+        if r['status'] == 'pass':
+            if not r.get('covers'):
+                entry['verdict'] = 'inconclusive: no path reached the property'
+                inconclusive.append(entry)
+            else:
+                entry['verdict'] = 'holds on every feasible path within bound'
+                passed.append(entry)
+        elif r['status'] == 'fail':
+            rec = r['violations'][0]
+            entry['failed_checks'] = [v['msg'] + ' on ' + v.get('input', '') for v in r['violations']][:8]
+            if nname:
+                replay_and_classify(entry, s.name, crate, rec['vals'], [rec['msg']], rec.get('input', ''), [], None, native_name=nname)
+            else:
+                entry['verdict'] = 'inconclusive: counterexample without native replay body'
+                inconclusive.append(entry)
+        else:
+            entry['verdict'] = 'inconclusive: ' + '; '.join(r.get('inconclusive', []))[:600]
+            inconclusive.append(entry)
+        hrep.append(entry)
+
     wall = time.time() - t0
+    seen_known = set()
     for key, what, e in known_hits:
-        print(f'KNOWN-FINDING: property={pid} {what} [{key}]')
+        if key not in seen_known:
+            print(f'KNOWN-FINDING: property={pid} {what} [{key}]')
+            seen_known.add(key)
     for e in violations:
         print(f"VIOLATION property={pid} replay={e['counterexample']['replay']}")
-        core.log(f"  harness={e['harness']} failed={e.get('failed_checks')} input={e['counterexample']['bytes']} native={e['counterexample']['native']}")
+        core.log(f"  harness={e['harness']} failed={e.get('failed_checks')} input={e['counterexample']['input']} native={e['counterexample']['native']}")
     for e in inconclusive:
         core.log(f"INCONCLUSIVE property={pid} harness={e['harness']}: {e['verdict']}")
     for c, t in compile_errors.items():
@@ -212,7 +290,7 @@ def main():
     nontrivial = [e for e in decided if (e.get('cover_sat') or 0) > 0 or e['status'] == 'fail']
     samples = []
     for e in hrep[:6]:
-        samples.append({k: e[k] for k in ('harness', 'functions', 'bound', 'claim', 'verdict', 'checks', 'solver_s') if k in e})
+        samples.append({k: e[k] for k in ('harness', 'engine', 'functions', 'bound', 'claim', 'verdict', 'checks', 'paths', 'solver_s') if k in e})
     for e in violations + [k[2] for k in known_hits]:
         samples.append(dict(harness=e['harness'], counterexample=e['counterexample']))
     ev = dict(
@@ -220,19 +298,22 @@ def main():
         coverage=dict(
             evaluations=len(decided),
             distinct_nontrivial=len({e['harness'] for e in nontrivial}),
-            rule=('one evaluation = one solver query: a Kani proof harness (real functions compiled from /repo, symbolic inputs, '
-                  'stated bound) decided by CBMC/cadical with unwinding assertions on; distinct = distinct harness (function x bound x '
-                  'claim); non-trivial = at least one reachability witness (kani::cover) inside the harness was satisfied or a '
-                  'counterexample was produced'),
+            rule=('one evaluation = one decision problem settled by a solver: (E1) a Kani proof harness - real functions compiled from '
+                  '/repo, symbolic inputs, stated bound - decided by CBMC/cadical with unwinding assertions on, or (E2) the MIR of the '
+                  'real functions executed symbolically by mirsym with z3 deciding every branch and the property on every feasible '
+                  'path; distinct = distinct harness (function x bound x claim); non-trivial = at least one reachability witness '
+                  '(kani::cover / covered outcome class) was satisfied or a counterexample was produced'),
             samples=samples,
             exhaustive=False,
-            engine='Kani 0.68.0 / CBMC 6.11.0 / cadical; symbolic = all values of the stated inputs within the stated bound',
+            engine='E1: Kani 0.68.0 / CBMC 6.11.0 / cadical; E2: mirsym (rustc nightly MIR, z3); symbolic = all values of the stated inputs within the stated bound',
             harnesses=hrep,
             queries_discharged=len(decided),
             assertions_checked=sum((e.get('checks') or 0) for e in decided),
+            paths_explored=sum((e.get('paths') or 0) for e in decided),
+            solver_queries=sum((e.get('solver_queries') or 0) for e in decided),
             solver_seconds=round(sum((e.get('solver_s') or 0) for e in hrep), 2),
             inconclusive=[e['harness'] for e in inconclusive],
-            known_findings_reproduced=[k for k, _, _ in known_hits],
+            known_findings_reproduced=sorted(seen_known),
             outside_claim=info.get('outside_claim', []),
             partial=bool(args.only),
         ),
@@ -244,10 +325,10 @@ def main():
     if not args.only:
         json.dump(ev, open(os.path.join(core.VERIF, 'evidence', f'{pid}.json'), 'w'), indent=1)
     else:
-        json.dump(ev, open(os.path.join(work, f'evidence-partial.json'), 'w'), indent=1)
+        json.dump(ev, open(os.path.join(work, 'evidence-partial.json'), 'w'), indent=1)
     if not args.keep:
         core.cleanup_workdir(work)
-    core.log(f'[{pid}] decided={len(decided)} passed={len(passed)} violations={len(violations)} known={len(known_hits)} '
+    core.log(f'[{pid}] decided={len(decided)} passed={len(passed)} violations={len(violations)} known={len(seen_known)} '
              f'inconclusive={len(inconclusive)} wall={wall:.0f}s')
     if violations:
         sys.exit(1)
